@@ -80,7 +80,11 @@ class HTTPConnection(Mapping[str, Any], MoreInfoFromHeaderMixin):
         """
         The full URL of this request.
         """
-        return URL(scope=self._scope)
+        try:
+            return URL(scope=self._scope)
+        except ValueError:
+            # e.g. Host: "[", a query string that is not UTF-8
+            raise HTTPException(400, content="Malformed request URL") from None
 
     @cached_property
     def path_params(self) -> Dict[str, Any]:
